@@ -8,11 +8,16 @@ Ltac Zify.zify_post_hook ::= Z.to_euclidean_division_equations.
 Module Utf16P.
 Import Utf16.
 
+Lemma unit_rt u : unit_of false (u mod 256) (u / 256) = u.
+Proof. unfold unit_of. lia. Qed.
+
 Lemma dec1_enc c rest : scalar c -> dec1 false (enc c ++ rest) = Got c rest.
 Proof.
   intros Hc. unfold enc, enc_bo, unit_bytes.
-  destruct (N.ltb_spec c 0x10000); unfold dec1, unit_of; cbn [app orb andb];
-    repeat (test_step; cbn [orb andb]); try (f_equal; lia); destruct Hc; exfalso; lia.
+  destruct (N.ltb_spec c 0x10000); unfold dec1; cbn [app]; rewrite !unit_rt.
+  - destruct Hc; decide_tests; reflexivity.
+  - assert (c <= 0x10FFFF) by (destruct Hc; lia).
+    decide_tests. cbn [orb andb]. f_equal. lia.
 Qed.
 
 Lemma parse1_enc c rest : scalar c -> parse1 (enc c ++ rest) = Some (c, rest).
@@ -33,7 +38,8 @@ Qed.
 
 Lemma dec1_progress be buf c rest : dec1 be buf = Got c rest -> (length rest < length buf)%nat.
 Proof.
-  destruct buf as [|b0 [|b1 [|b2 [|b3 r]]]]; unfold dec1; split_ifs; intros H; inversion H; subst; cbn [length]; lia.
+  destruct buf as [|b0 [|b1 [|b2 [|b3 r]]]]; unfold dec1; split_ifs; intros H; try discriminate H;
+    match type of H with Got _ ?r = _ => assert (rest = r) by congruence; subst rest end; cbn [length]; lia.
 Qed.
 
 Lemma parse1_progress buf u rest : parse1 buf = Some (u, rest) -> (length rest < length buf)%nat.
